@@ -1,10 +1,10 @@
 """C09 — peer authentication cannot be bypassed.
 Theorems: Props/Properties_C09.v (guards on every path to `return 1`).  Run time: the credential
 defect matrix on the implementation; oracle = the property text (the verifying endpoint must not
-report a completed handshake)."""
+report a completed handshake; its configured trust anchors must be untouched)."""
 from vlib import core
 
-WRAP = "-Wl,--wrap=tls_record_send,--wrap=tls_record_recv,--wrap=sm2_do_ecdh,--wrap=tls_pre_master_secret_generate,--wrap=tls_record_set_handshake_certificate,--wrap=hkdf_expand"
+WRAP = "-Wl,--wrap=tls_record_send,--wrap=tls_record_recv,--wrap=sm2_do_ecdh,--wrap=tls_pre_master_secret_generate,--wrap=tls_record_set_handshake_certificate,--wrap=hkdf_expand,--wrap=tls_uint24array_to_bytes"
 PROTOS = ["tlcp", "tls12", "tls13"]
 DEFECTS = ["untrusted-root", "expired", "not-yet-valid", "issuer-not-ca", "bad-cert-sig", "cert-other-sigalg", "key-mismatch"]
 
@@ -75,8 +75,15 @@ def run(ctx):
             ds = ["valid"] + DEFECTS + ["leaf-swapped"] \
                 + (["enc-key-mismatch", "enc-cert-other-ca"] if (p == "tlcp" and role == "client") else []) \
                 + (["no-cert", "empty-cert"] if role == "server" else [])
+            ds += ["anchors-many", "anchors-oversize", "not-before-2^32", "clock-2^32"]
+            sizes = [2049, 2431, 4096, 15000]
+            npos = 3 if p == "tlcp" and role == "client" else 2      # positions in the forger's chain
+            if ctx.tier == "quick":
+                ds += ["oversize-cert-%d-%d" % (sz, (i + PROTOS.index(p)) % npos) for i, sz in enumerate(sizes)]
+            else:
+                ds += ["oversize-cert-%d-%d" % (sz, pos) for sz in sizes + [2048, 3000, 8192] for pos in range(npos)]
             for d in ds:
-                for s in seeds:
+                for s in (seeds if not d.startswith(("oversize-cert", "anchors-")) else seeds[:1]):
                     cases.append(("auth %s %s %s %d" % (p, role, d, s), "auth:%s:%s-verifies:%s" % (p, role, d), role, d))
                 if role == "client":
                     # the same row with client authentication requested as well (the client then walks the
@@ -93,7 +100,15 @@ def run(ctx):
             ctx.violation(cell + ":harness", "harness error %s [%s]" % (out[:80], line), rep); continue
         f = fields(out)
         verdict = f["rc"] if role == "client" else f["rs"]
-        if d == "valid":
+        if f.get("cfg", "11") != "11":
+            ctx.violation(cell + ":anchors-overwritten", "the handshake changed an endpoint's configured trust anchors (conn->ca_certs / ca_certs_len): %s [%s]" % (out, line), rep); continue
+        if f.get("init") == "refused":
+            if d in ("valid", "anchors-many"):
+                ctx.violation(cell + ":control", "tls_init refused a valid configuration: %s [%s]" % (out, line), rep)
+            else:
+                ctx.cell(cell + ":init-refused")          # fail closed
+            continue
+        if d in ("valid", "anchors-many"):
             if f["rc"] != "1" or f["rs"] != "1" or f["okc"] != "1" or f["oks"] != "1":
                 ctx.violation(cell + ":control", "the control run with valid credentials does not complete: %s [%s]" % (out, line), rep)
             else:
@@ -130,5 +145,5 @@ def finish(ctx):
         "rows 'key-mismatch' = wrong-key ServerKeyExchange signature / CertificateVerify (right certificate, other private key); 'leaf-swapped' = another valid leaf of the same CA with the original key; 'untrusted-root' on the server side = client chain valid but not under the server's client-CA anchors",
     ]
     return ctx.finish(level="proof",
-                      rule="3 protocols x {client verifies server, server verifies client} x {valid (control), untrusted root, expired, not yet valid (interposed clock), issuer not a CA, corrupted certificate signature, leaf with foreign signatureAlgorithm fields, certificate/private-key mismatch (= wrong-key signature / CertificateVerify), leaf swapped for another valid leaf, TLCP encryption-key mismatch, TLCP encryption certificate from another CA, no client certificate, empty client Certificate message} x seeds; oracle: the verifying endpoint's handshake return is not 1",
+                      rule="3 protocols x {client verifies server, server verifies client} x {valid (control), untrusted root, expired, not yet valid (interposed clock), issuer not a CA, corrupted certificate signature, leaf with foreign signatureAlgorithm fields, certificate/private-key mismatch (= wrong-key signature / CertificateVerify), leaf swapped for another valid leaf, TLCP encryption-key mismatch, TLCP encryption certificate from another CA, no client certificate, empty client Certificate message, verifier's CA bundle of 5 certificates (control) and of 6 certificates > 2048 bytes (must be refused or still enforce), forged chains with one certificate of 2049 / 2431 / 4096 / 15000 bytes at each position (trust anchors must stay intact), validity dates 2^32 s away} x seeds; oracle: the verifying endpoint's handshake return is not 1",
                       trusted=core.TRUSTED_COMMON + ["credential generation with the library's X.509 functions (props/C08/tls_peer.h)", "Coq files: Tls/Handshake.v HandshakeProofs.v"])
